@@ -79,6 +79,49 @@ class SFrame:
     def length(self):
         return self.n if isinstance(self.n, int) else SV(self.n)
 
+    @property
+    def shape(self):
+        return (self.length(), len(self.cols))
+
+    class _Loc:
+        """df.loc[rows, col] (= value) on a frame with the default RangeIndex (row label == row position: A-PANDAS)"""
+        _pyvc_ok = True
+
+        def __init__(self, f):
+            self.f = f
+
+        def __setitem__(self, key, v):
+            if not (isinstance(key, tuple) and len(key) == 2 and isinstance(key[1], str)):
+                raise Unsupported("df.loc[...] = v other than df.loc[rows, 'column'] = v")
+            rows, col = key
+            v = v.arr if isinstance(v, SSeries) else v
+            A.setitem(self.f.cols[col].arr, rows.arr if isinstance(rows, SSeries) else rows, v)
+
+        def __getitem__(self, key):
+            if not (isinstance(key, tuple) and len(key) == 2 and isinstance(key[1], str)):
+                raise Unsupported("df.loc[...] other than df.loc[rows, 'column']")
+            rows, col = key
+            return SSeries(A.getitem(self.f.cols[col].arr, rows.arr if isinstance(rows, SSeries) else rows))
+
+    @property
+    def loc(self):
+        return SFrame._Loc(self)
+
+    class _ILocF:
+        _pyvc_ok = True
+
+        def __init__(self, f):
+            self.f = f
+
+        def __getitem__(self, key):
+            if not isinstance(key, slice):
+                raise Unsupported("df.iloc[...] other than a row slice")
+            return SFrame({c: SSeries(A.getitem(s.arr, key)) for c, s in self.f.cols.items()})
+
+    @property
+    def iloc(self):
+        return SFrame._ILocF(self)
+
 
 def dataframe_summary(it, a, k):
     d = a[0]
